@@ -7,7 +7,7 @@ _W = {}
 # library calls that did not return: verdicts ["VIOL", "*", "CallReturns", k, [family module, operation]]
 # collected by replay_stream, picked up by the driver
 HANG_VERDICTS, HANG_FILES = [], []
-CASE_TIMEOUT = float(os.environ.get("VERIF_CASE_TIMEOUT", "45"))
+CASE_TIMEOUT = float(os.environ.get("VERIF_CASE_TIMEOUT", "120"))
 
 
 class CaseHang(BaseException):
@@ -18,13 +18,14 @@ def _alarm(signum, frame):
     raise CaseHang()
 
 
-def _init(prefix, modname, shard, setup_args, fn="replay"):
+def _init(prefix, modname, shard, setup_args, fn="replay", case_timeout=None):
     C.silence_stdout()
     C.import_odml()
     _W["writer"] = C.ObsWriter("%s_w%05d" % (prefix, os.getpid()), shard)
     _W["mod"] = importlib.import_module(modname)
     _W["fn"] = getattr(_W["mod"], fn)
     _W["hangs"], _W["prefix"], _W["modname"] = 0, prefix, modname
+    _W["timeout"] = case_timeout or CASE_TIMEOUT
     signal.signal(signal.SIGALRM, _alarm)
     if hasattr(_W["mod"], "worker_setup"):
         _W["mod"].worker_setup(*setup_args)
@@ -43,7 +44,7 @@ def _work(chunk):
     for line in chunk:
         t = C.decode(line) if isinstance(line, str) else line
         # every case runs under an alarm: a library call that loops is an observation, not a stuck check
-        signal.setitimer(signal.ITIMER_REAL, CASE_TIMEOUT if _W["hangs"] < 2 else max(3.0, CASE_TIMEOUT / 15))
+        signal.setitimer(signal.ITIMER_REAL, _W["timeout"] if _W["hangs"] < 2 else max(5.0, _W["timeout"] / 15))
         try:
             for rec in _W["fn"](t):
                 st = rec.pop("_stream", None) if isinstance(rec, dict) else None
@@ -72,7 +73,7 @@ def _work(chunk):
     return n
 
 
-def replay_stream(chunks, modname, prefix, shard=15000, procs=None, setup_args=(), fn="replay"):
+def replay_stream(chunks, modname, prefix, shard=15000, procs=None, setup_args=(), fn="replay", case_timeout=None):
     """chunks: iterable of lists of cases (raw TLC data lines or decoded dicts).
     Returns (n_records, [obs files])."""
     for f in glob.glob(prefix + "_w*.ndjson") + glob.glob(prefix + "_hang_w*.ndjson") + glob.glob(prefix + "-*_w*.ndjson"):
@@ -80,7 +81,7 @@ def replay_stream(chunks, modname, prefix, shard=15000, procs=None, setup_args=(
     procs = procs or max(2, C.NCPU - 2)
     total = 0
     ctx = mp.get_context("fork")
-    with ctx.Pool(procs, initializer=_init, initargs=(prefix, modname, shard, setup_args, fn)) as pool:
+    with ctx.Pool(procs, initializer=_init, initargs=(prefix, modname, shard, setup_args, fn, case_timeout)) as pool:
         for n in pool.imap_unordered(_work, chunks, chunksize=1):
             total += n
         pool.close()
